@@ -47,6 +47,15 @@ def make_seeds(seed: int, count: int, max_level: int = 7) -> List[Dict[str, Any]
     out: List[Dict[str, Any]] = []
     from .record import record_restructure
 
+    # always present, whatever the size caps: a loop whose body is a branch (regions nested in a loop region, the latch - a block
+    # with a declared back edge - is the exiting block of the tail region), and a loop nest
+    for g, stage in ((((1,), (2, 3), (4,), (4,), (1, 5), ()), "branches"), (((1,), (2, 3), (4,), (4,), (1, 5), ()), "loops"),
+                     (((1,), (2,), (2, 3), (1, 4), ()), "loops")):
+        beh = record_restructure(build_scfg(domains.graph_to_named(g)), {"g": [list(s) for s in g]}, primitives=False)
+        st = beh["stages"].get(stage)
+        if st is not None and not beh["exc"]:
+            out.append({"H": st["H"], "ng": st["ng"], "root": st["root"], "ord": st["ord"], "from": {"g": [list(s) for s in g], "stage": stage}})
+
     for g in graphs:
         if len(out) >= count:
             break
